@@ -346,12 +346,6 @@ example : columnFmt "peak_flux".toList (unify opsZ [.int 2, .flt 5, .nan]) = Fmt
 /-- `nulls` is applied to whole rows, and a row is never `-1`: it changes nothing (the −1 marker is kept) -/
 theorem nulls_noop_on_rows (isM1 : α → Bool) (r : List (Val α)) : nulls isM1 (.row r) = some (.row r) := rfl
 
-theorem filterMap_some_eq_map {β γ : Type} (f : β → γ) (l : List β) :
-    l.filterMap (fun x => some (f x)) = l.map f := by
-  induction l with
-  | nil => rfl
-  | cons a t ih => simp [ih]
-
 /-- **db_rows_equal**: the table written for a non-empty list of sources of kind `k` is called
     components / islands / simples, has the `names` columns in order, and holds one row per
     source, in order, equal to the rows of the table the other writers build. -/
